@@ -56,7 +56,7 @@ fn lexspec(d: &mut crate::driver::Driver, score: bool, n: usize, order: &[usize]
 }
 
 /// returns (real result, drawn case order)
-fn one_case(d: &mut crate::driver::Driver, r: &mut Report, tag: &str, score: bool, n_cases: usize, pop: &PopRaw, mut real_rng: SplitMix, count: bool) -> (String, Vec<usize>) {
+fn one_case(d: &mut crate::driver::Driver, r: &mut Report, prop: &str, tag: &str, score: bool, n_cases: usize, pop: &PopRaw, mut real_rng: SplitMix, count: bool) -> (String, Vec<usize>) {
     let req = format!("sel {} lexicase {n_cases} | {}", if score { "score" } else { "error" }, pop_tokens(pop));
     let mut shadow = real_rng.clone();
     let mut second = real_rng.clone();
@@ -84,6 +84,8 @@ fn one_case(d: &mut crate::driver::Driver, r: &mut Report, tag: &str, score: boo
         r.disagree(json!({"case": req, "tag": tag, "real": real, "impl": model, "same_generator_state_after": same_stream}));
     }
     // ---- property oracles ----
+    let c06 = prop.is_empty() || prop == "C06";
+    let c08 = prop.is_empty() || prop == "C08";
     let viol = |r: &mut Report, what: String| r.violate(json!({"case": req, "tag": tag, "what": what, "real": real}));
     // the case order this stream gives: the harness's own shuffle of 0..n (independent of the model)
     let mut order: Vec<usize> = (0..n_cases).collect();
@@ -91,8 +93,8 @@ fn one_case(d: &mut crate::driver::Driver, r: &mut Report, tag: &str, score: boo
     if !det_ok { viol(r, "two runs from equal generator states differ (C16)".into()); }
     if real == "panic" { viol(r, "selector panicked".into()); return (real, order); }
     if real.contains("NOT-A-MEMBER") { viol(r, "returned reference is not an element of the population".into()); return (real, order); }
-    if (n == 0) != (real == "err LexEmpty") { viol(r, "LexEmpty must be reported exactly for the empty population".into()); }
-    if let Some(e) = real.strip_prefix("err MissingTestCase(") {
+    if c06 && (n == 0) != (real == "err LexEmpty") { viol(r, "LexEmpty must be reported exactly for the empty population".into()); }
+    if let Some(e) = real.strip_prefix("err MissingTestCase(").filter(|_| c06) {
         let nums: Vec<usize> = e.trim_end_matches(')').split(',').map(|x| x.parse().unwrap()).collect();
         if nums[0] != n_cases || nums[1] >= n_cases || !pop.iter().any(|x| x.1.len() <= nums[1]) {
             viol(r, "MissingTestCase(total, idx) needs total = configured cases, idx < total and an individual without result idx".into());
@@ -100,7 +102,7 @@ fn one_case(d: &mut crate::driver::Driver, r: &mut Report, tag: &str, score: boo
         if complete { viol(r, "MissingTestCase although every individual has the configured number of results".into()); }
     }
     if let Some(w) = real.strip_prefix("ok ").map(|x| x.parse::<usize>().unwrap()) {
-        if complete {
+        if complete && c08 {
             let (surv, nd) = lexspec(d, score, n_cases, &order, pop);
             if !surv.contains(&w) { viol(r, format!("winner is not among the survivors {surv:?} of filtering by the drawn case order {order:?} (Lean Spec)")); }
             if !nd.contains(&w) { viol(r, format!("winner is Pareto-dominated (Lean Spec: non-dominated = {nd:?})")); }
@@ -110,7 +112,7 @@ fn one_case(d: &mut crate::driver::Driver, r: &mut Report, tag: &str, score: boo
             fin.shuffle(&mut oracle_rng);
             if fin.first() != Some(&w) { viol(r, format!("winner is not the survivor the final shuffle puts first ({:?} of {surv:?})", fin.first())); }
         }
-        if n == 1 && w != 0 { viol(r, "single individual must be selected".into()); }
+        if c08 && n == 1 && w != 0 { viol(r, "single individual must be selected".into()); }
     } else if complete && n > 0 {
         viol(r, "an error although the population is non-empty and every individual has the configured number of results".into());
     }
@@ -171,10 +173,11 @@ fn law_block(d: &mut crate::driver::Driver, r: &mut Report, seed: u64, runs: u64
 pub fn run(cfg: &Cfg) -> Report {
     let n: u64 = if cfg.thorough { 2000000 } else { 50000 };
     let seed = cfg.seed;
+    let prop = cfg.prop.as_str();
     let mut rep = run_sharded(&cfg.driver, cfg.threads, n, || Report::new("lex", RULE), |d, r, i| {
         let mut g = SplitMix::derive(seed ^ 0x1EC5, i);
         let (score, n_cases, pop) = gen_case(&mut g);
-        one_case(d, r, &i.to_string(), score, n_cases, &pop, SplitMix::derive(seed ^ 0xCAFE, i), true);
+        one_case(d, r, prop, &i.to_string(), score, n_cases, &pop, SplitMix::derive(seed ^ 0xCAFE, i), true);
     });
     // exhaustive small scope: 3 individuals x c cases over {0,1,2}, every case order
     let c: usize = if cfg.thorough { 3 } else { 2 };
@@ -187,7 +190,7 @@ pub fn run(cfg: &Cfg) -> Report {
             let mut seen: Vec<Vec<usize>> = Vec::new();
             let mut s = 0u64;
             while seen.len() < orders_needed && s < 200 {
-                let (_, order) = one_case(d, r, &format!("ex{m}-{s}"), score, c, &pop, SplitMix::derive(seed ^ 0xE1E1, m * 256 + s), s == 0);
+                let (_, order) = one_case(d, r, prop, &format!("ex{m}-{s}"), score, c, &pop, SplitMix::derive(seed ^ 0xE1E1, m * 256 + s), s == 0);
                 if !seen.contains(&order) { seen.push(order); }
                 s += 1;
             }
@@ -196,8 +199,10 @@ pub fn run(cfg: &Cfg) -> Report {
         r.hit(&format!("exhaustive matrix 3x{c} over {{0,1,2}} x every case order x both polarities"));
     });
     rep.merge(ex);
-    let mut d = crate::driver::Driver::spawn(&cfg.driver);
-    law_block(&mut d, &mut rep, seed, if cfg.thorough { 1000000 } else { 50000 });
+    if prop.is_empty() || prop == "C08" {
+        let mut d = crate::driver::Driver::spawn(&cfg.driver);
+        law_block(&mut d, &mut rep, seed, if cfg.thorough { 1000000 } else { 50000 });
+    }
     rep.notes.push(format!("exhaustive scope: all {total} result matrices of 3 individuals x {c} cases over {{0,1,2}}, every case order, both polarities"));
     rep
 }
